@@ -123,9 +123,9 @@ func genValue(r *sim.R, ctr *int, depth int) string {
 var malformed = []string{`"abc`, `'abc`, `[1,2`, `{a: 1`, `[`, `{`, `[a,`, `{a:`, `{a`, `[1,[2`, `{a: [1}`}
 
 type fileEntry struct {
-	tree    *model.Node
-	ioErr   bool
-	nilCfg  bool
+	tree   *model.Node
+	ioErr  bool
+	nilCfg bool
 }
 
 // Run executes one flag history.
@@ -185,8 +185,8 @@ func Run(r *sim.R, maxSets int) {
 		var arg string
 		// the model's view of this argument
 		var mCfg *ucfg.Config
-		var mErr error   // internal error (latched)
-		var mRep error   // error Set reports
+		var mErr error // internal error (latched)
+		var mRep error // error Set reports
 		if files {
 			arg, mCfg, mErr = genFileArg(r, table, loaders, o, &ctr)
 		} else {
